@@ -17,8 +17,8 @@ type blob struct {
 	lenVar *smt.Term
 	strVar *smt.Term
 	id     int
-	raw    bool // contains caller text spliced through an innerxml field
-	indent bool // produced by MarshalIndent
+	raw    bool    // contains caller text spliced through an innerxml field
+	indent bool    // produced by MarshalIndent
 	zip    *zipRec // the blob is a recorded ZIP archive, not XML
 	tokens []xtok
 }
@@ -77,9 +77,21 @@ func (x *exec) newBlob(v value, t types.Type) *blob {
 	return &blob{snap: snapVal(v, 0), typ: t, id: x.nblob}
 }
 
+// isBytesLen: t is the length term of a blob or of symbolic bytes.
+func (x *exec) isBytesLen(t *smt.Term) bool {
+	if x.lenVars[t] {
+		return true
+	}
+	return t.Op == "str.len"
+}
+
 func (x *exec) blobLen(b *blob) value {
 	if b.lenVar == nil {
 		b.lenVar = x.fresh("bloblen", smt.Int)
+		if x.lenVars == nil {
+			x.lenVars = map[*smt.Term]bool{}
+		}
+		x.lenVars[b.lenVar] = true
 		x.assume(x.tb.Lt(x.tb.IntC(int64(len(b.prefix))), b.lenVar))
 	}
 	return sym{types.Int, b.lenVar}
